@@ -5,7 +5,8 @@ pid = sys.argv[1]
 wt = sys.argv[2] if len(sys.argv) > 2 else pid
 wave2 = len(sys.argv) > 3
 wave3 = len(sys.argv) > 3 and sys.argv[3] == 'w3'
-wave4 = len(sys.argv) > 3 and sys.argv[3] == 'w4'
+wave4 = len(sys.argv) > 3 and sys.argv[3] in ('w4', 'w5')
+wave5 = len(sys.argv) > 3 and sys.argv[3] == 'w5'
 extra = ""
 if wave2:
     extra += " Neither change may be a simply dropped or inverted check at the obvious entry point: at least one must rely on state carried across a multi-step sequence or on two cooperating sites that each look fine alone, and (where the property involves several connections, goroutines, crashes or faults) at least one must need a particular interleaving, crash point or fault to manifest."
@@ -13,8 +14,10 @@ if wave3 or wave4:
     extra += " Additionally, neither change may sit in the request's entry handler itself: put it in code at least one call away (shared helpers, encoders/decoders, stores, path or name handling, the connection/transfer loops, start-up/loading code), or in how two requests or two connections interact; pick sites and failure modes that a reviewer focused on the handler would not look at, and make the two changes as different from each other as you can (different files, different mechanisms)."
 if wave4:
     extra += " Prefer changes whose effect depends on state left behind by a DIFFERENT session or an earlier request (pending transfers, stale table entries, leftover files, cached values), on integer fields sent in their shorter or longer legal encodings (Hotline integers may be 2 or 4 bytes), on values at the limits of their range (0, 1, 255/256, 65535/65536, 2^31, 2^32-1), on names at the limits of their length or containing non-ASCII bytes, or on the relative order of two operations by different users."
+if wave5:
+    extra += " The THREE changes must be of three different kinds: m1 must need two sessions (or a session and a transfer connection) whose operations interleave or follow each other in a particular order; m2 must only show after a restart, reload or crash, or through files left behind on disk; m3 must only show for particular input encodings, lengths or boundary values. At least one of the three must be in a file that is NOT among the code anchors listed above."
 p = next(json.loads(l) for l in open('/verif/properties.jsonl') if json.loads(l)['id'] == pid)
-print(f"""You are working in a scratch git worktree of the Go project jhalter/mobius (a Hotline protocol server) at /tmp/mut/{wt}. Work ONLY inside /tmp/mut/{wt}. Never touch or read /repo or /verif.
+out = (f"""You are working in a scratch git worktree of the Go project jhalter/mobius (a Hotline protocol server) at /tmp/mut/{wt}. Work ONLY inside /tmp/mut/{wt}. Never touch or read /repo or /verif.
 
 Every shell call needs: export GOFLAGS=-mod=mod GOPROXY=off GOSUMDB=off GOTOOLCHAIN=local   (the sandbox has no network; all modules are cached).
 
@@ -37,3 +40,11 @@ DELIVERABLES in /tmp/mut/{wt}/out/ :
   m1.json  m2.json           - {{"property": "{pid}", "summary": "...what was changed...", "needs": "...what is needed for the violation to manifest...", "files": [...], "demo_run": "go test ..."}}
 IMPORTANT: put a file out/go.mod containing "module mutout" in out/ so that ./... ignores the demo files there.
 At the end leave the worktree clean (`git status` shows only out/ as untracked). Report briefly what the two changes are.""")
+if wave5:
+    out = out.replace("produce TWO independent, realistic source changes (two separate patches, m1 and m2, each applying", "produce THREE independent, realistic source changes (three separate patches, m1, m2 and m3, each applying")
+    out = out.replace("The two changes should break different aspects/code paths of the property.", "The three changes should break different aspects/code paths of the property.")
+    out = out.replace("m1.diff  m2.diff   ", "m1.diff  m2.diff  m3.diff   ")
+    out = out.replace("m1_demo_test.go  m2_demo_test.go ", "m1_demo_test.go  m2_demo_test.go  m3_demo_test.go ")
+    out = out.replace("m1.json  m2.json   ", "m1.json  m2.json  m3.json   ")
+    out = out.replace("what the two changes are", "what the three changes are")
+print(out)
